@@ -511,6 +511,11 @@ func (s *roState) step() string {
 		var poff int64
 		if pos && f != nil && !f.ino.dir {
 			poff = int64(t.Choose(len(f.ino.data) + 2))
+			if s.class == "gofs-mapfs" && poff > int64(len(f.ino.data)) {
+				// testing/fstest's ReadAt refuses offsets beyond the end (ErrInvalid) where POSIX
+				// returns 0 bytes: a property of that fs.FS, not of wazero
+				poff = int64(len(f.ino.data))
+			}
 		}
 		var got uint32
 		var ok bool
